@@ -108,8 +108,20 @@ static void cop(const std::vector<std::string> &t) {
     else { fprintf(stderr, "bad op %s\n", op.c_str()); exit(3); }
 }
 
+// Dup how : the ring is replaced by a copy of itself (copy construction, move construction, copy assignment or move assignment into a ring of
+// another size); the original is destroyed.  Nothing observable may change.
+template <class R> static void dup(std::unique_ptr<R> &P, const std::string &how) {
+    std::unique_ptr<R> n;
+    if (how == "copy") n.reset(new R(*P));
+    else if (how == "move") n.reset(new R(std::move(*P)));
+    else if (how == "assign") { n.reset(new R(1)); *n = *P; }
+    else { n.reset(new R(3)); *n = std::move(*P); }
+    P.swap(n); n.reset();
+    Ev e("Dup"); e.str("how", how.c_str()); obs(e); e.end();
+}
 int main(int argc, char **argv) {
     return run(argc, argv, [&](const std::vector<std::string> &t) {
+        if (t[0] == "Dup") { if (kind == "xc") dup(XC, t[1]); else if (kind == "xi") dup(XI, t[1]); else { fprintf(stderr, "Dup: bad kind\n"); exit(3); } return; }
         if (t[0] == "R") {
             kind = t[1]; unsigned s = num(t[2]);
             if (kind == "c") C.reset(s); else if (kind == "xc") XC.reset(new igris::ring<char>(s - 1)); else if (kind == "xt") XT.reset(new igris::ring<TE>(s - 1)); else if (kind == "xl") XL.reset(new igris::ring<LE>(s - 1)); else XI.reset(new igris::ring<int>(s - 1));
